@@ -7,7 +7,6 @@ import (
 	crand "crypto/rand"
 	"errors"
 	"fmt"
-	"io"
 	mrand "math/rand"
 	"runtime"
 	"sort"
@@ -540,7 +539,7 @@ func (e *c15Env) generate(n, th, k int, via string) (id string, ok bool) {
 	e.hist.add(op)
 	e.run.Count("generate_ok", 1)
 	if e.seeded[kd.name+":"+id] {
-		e.run.Violation(fmt.Sprintf("C15:preseeded-id-handed-out|backend=%s|nodes=%s", e.cs.Backend, e.nodes()),
+		e.run.Violation(fmt.Sprintf("C15:preseeded-id-handed-out|backend=%s", e.cs.Backend),
 			map[string]any{"case": e.cs, "op": op, "note": "the marker of this id was created by an earlier Generate and never released"})
 	}
 	if via == "unique" {
@@ -722,7 +721,7 @@ func c15RunCase(t *testing.T, run *vk.Run, ent *c15Entropy, cs c15Case, fam *c15
 				id, ok := e.generate(n, th, k, "saturated")
 				if ok {
 					owned[w] = append(owned[w], c15Owned{k, id})
-					run.Violation(fmt.Sprintf("C15:generate-succeeded-while-all-candidates-live|backend=%s|nodes=%s", cs.Backend, e.nodes()),
+					run.Violation(fmt.Sprintf("C15:generate-succeeded-while-all-candidates-live|backend=%s", cs.Backend),
 						map[string]any{"case": cs, "kind": c15Kinds[k].name, "id": id, "note": "all K candidate ids of this kind were live (generated or pre-seeded, none released) at a quiescent point"})
 				} else {
 					run.Count("refused_while_saturated", 1)
@@ -793,7 +792,7 @@ func TestVerifC15Cluster(t *testing.T) {
 	run.Rule("case = (backend in memory/redis(miniredis)/hybrid+shared redis/hybrid local/no-SetNX double, K in {1,2,4,16,64} candidate ids per kind via a K-pattern crypto/rand.Reader, G in {1,2,4} IDManager nodes x 4 goroutines, pre-seed pattern none/some/all-but-one/all, release ratio); phases: seed via real Generate, mixed Generate/Release with random yields at every storage op, fill to saturation, saturated probes, release all, regenerate; distinct = (backend,K,G,preseed)")
 	ent := c15InstallEntropy(t, run)
 	r := run.Rand("cases")
-	reps := run.Pick(2, 24)
+	reps := run.Pick(3, 30)
 	ks := []int{1, 2, 4, 16, 64}
 	seeds := []string{"none", "some", "all-but-one", "all"}
 	fams := map[string]*c15Stats{}
@@ -806,7 +805,7 @@ func TestVerifC15Cluster(t *testing.T) {
 		for _, k := range ks {
 			for rep := 0; rep < reps; rep++ {
 				planned++
-				if aborted {
+				if aborted || run.Violations() >= 20 {
 					continue
 				}
 				g := []int{1, 2, 4}[(caseNo+rep)%3]
@@ -840,7 +839,7 @@ func TestVerifC15Cluster(t *testing.T) {
 	}
 	run.Count("entropy_draws", ent.rd.draws.Load())
 	run.Observe("wall_s_cases", time.Since(start).Seconds())
-	if decided == planned {
+	if decided == planned || (!aborted && run.Violations() >= 20) {
 		run.Count("all_cases_decided", 1)
 	}
 	run.Floor("all_cases_decided", 1)
@@ -952,7 +951,7 @@ func TestVerifC15Sched(t *testing.T) {
 		{name: "3x(g) K=4", k: 4, scripts: []string{"g", "g", "g"}},
 		{name: "g r g | g K=2", k: 2, scripts: []string{"grg", "g"}},
 	}
-	perScen := run.Pick(60, 1500)
+	perScen := run.Pick(150, 3000)
 	complete := true
 	for si, sc := range small {
 		sub := r.Int63()
@@ -1100,5 +1099,3 @@ func TestVerifC15UUID(t *testing.T) {
 	}
 	run.Floor("uuid_ids", 10000)
 }
-
-var _ = io.EOF
